@@ -94,7 +94,7 @@ def make_labels(rng, n, kind):
         return rng.sample(pool, n)
     # mixed, unsortable
     pool = [0, 1, 2, 7, -1, "a", "b", "s0", "1", (0, 0), (0, 1), (1, "a"), ("a",), (), Pos(0, 1),
-            frozenset([1, 2]), frozenset(), None]
+            frozenset([1, 2]), frozenset()]   # None is excluded: msdm's API uses None as "no state given"
     if frozendict is not None:
         pool += [frozendict(x=0), frozendict(x=1, y="q")]
     # (0,1) == Pos(0,1) would collide: drop one of them
@@ -110,7 +110,7 @@ def make_action_labels(rng, m):
         return rng.sample(range(0, 9), m)
     if kind == "tuple":
         return rng.sample([(0, 1), (1, 0), (-1, 0), (0, -1), (0, 0)], m)
-    return rng.sample([0, "x", (1, 0), "y", 3, None], m)
+    return rng.sample([0, "x", (1, 0), "y", 3, ("z",)], m)
 
 
 def random_spec(rng, family="any", n_max=8, a_max=4, label_kind=None, uniform_actions=False,
